@@ -246,4 +246,26 @@ CHECKS = {
                    "Files are created lazily, so a missing external-trigger/data-drop file is accepted when the cycle had no such event.",
         assumptions=["labels are non-empty and contain no newline (the RPC layer rejects empty labels)"],
     ),
+    "C03": dict(
+        pkg=".", hdir="root", test="TestVerif_C03", wal=True,
+        quick=dict(shards=16, checks=400, timeout=900),
+        thorough=dict(shards=16, checks=8000, timeout=3400),
+        technique="property-based testing (rapid) with a scripted packet producer as the clock; reference demultiplexer as oracle",
+        rule="rapid-generated group layouts (1-4 groups arriving in arbitrary order over 1-4 producers, 1-8 channels each, 1-D or 2-D shape, "
+             "int16 or int32 payload, per-group sequence base up to 2^31, 1-16 frames per packet), a sampling phase of 2-6 packets per group "
+             "(later ones possibly lost), and a tick script of 1-12 read ticks: per tick and group 0-8 further packet positions arrive "
+             "(empty ticks, one group lagging the others), with none / one / a run of / scattered lost positions per group; packets pass "
+             "through Bytes()/ReadPacket; a final tick lets every group catch up. Real Sample() -> readerMainLoop() (1 ms period) -> "
+             "distributeData(). non-trivial = >= 1 lost packet AND >= 1 tick that leaves packets of some group queued; distinct = FNV-64 of the case",
+        level_text="The concatenated per-channel output must equal, sample for sample, the reference demultiplexing: starting at the first "
+                   "sequence number after start-up common to all groups, every arrived packet contributes its frames for that channel "
+                   "(int32: upper 16 bits), every lost packet exactly frames-per-packet filler samples (content free); so the per-channel count "
+                   "equals the frames spanned, all groups stay aligned, every block has equal length on all channels, block frame numbers are "
+                   "contiguous, and the dropped-frame total over all blocks equals the filler frames inserted; a panic in the reader loop is a violation.",
+        level_note="Frames per packet are equal across groups (sequence-number alignment presupposes it) and the first sampled packet of every group "
+                   "arrives (the code documents that it synchronises groups on it). For int32 payloads value/65536 (rounding towards zero) is "
+                   "accepted as well as the arithmetic upper half. Filler frames trimmed before the common start may or may not be counted as dropped. "
+                   "Phase unwrapping is off here (C12 covers it).",
+        assumptions=["packets of one group arrive in sequence order", "equal frames per packet in all groups", "sequence numbers do not wrap around 2^32 within a case"],
+    ),
 }
